@@ -257,6 +257,11 @@ def wrapper_case(cs, ck, G, patt, targ, flt, scope, tag):
     cs.add(f'pyres_eqb maps_eqb (zmol_get_mapping {zpairs(patt[0])} {zadj(patt[1])} {zpairs(targ[0])} {zadj(targ[1])} {zll(tc)} {b(flt)} {scope_term(scope)}) {res_maps(got, err)}',
            ('Isomorphism._get_mapping', tag, patt, targ, flt, scope))
     ck.case(('wr', repr(patt), repr(targ), flt, None if scope is None else tuple(sorted(scope))), nontrivial=bool(got))
+    if tag == 'rand' and flt:
+        # the hypotheses of the theorems (well-formed adjacency; connected_components = a partition into CONNECTED lists no bond leaves)
+        cs.add(f'hyp_okb Z.eqb {zpairs(targ[0])} {zadj(targ[1])} {zll(tc)} && wf_adjb Z.eqb {zpairs(patt[0])} {zadj(patt[1])}',
+               ('hypotheses', tag, patt, targ))
+        ck.count('hypotheses:int-graph')
     ncomp = len(p._compiled_query[0])
     ck.count(f'wrapper:{tag}:pcomps={min(ncomp, 3)}:tcomps={min(len(tc), 3)}:filter={int(flt)}:scope={"none" if scope is None else ("empty" if not scope else "set")}:'
              f'{"err" if err else "hit" if got else "miss"}')
@@ -457,6 +462,9 @@ def corr_molecules(ck, cs):
               f'{lst([tup(zraw(k), lst([zraw(m) for m, _ in v])) for k, v in clo.items()])}))')
         cs.add(f'skel_eqb (skel (compile_query (m_atoms {coqmol.mol_term(t)}) (m_adj {coqmol.mol_term(t)}))) {sk}', ('_compiled_query', str(t)))
         ck.case(('mol-cq', str(t), tuple(t._atoms)), nontrivial=True)
+        tc0 = [sorted(c) for c in t.connected_components]
+        cs.add(f'hyp_okb bond_eqb (m_atoms {coqmol.mol_term(t)}) (m_adj {coqmol.mol_term(t)}) {zll(tc0)}', ('hypotheses', 'molecule', str(t)))
+        ck.count('hypotheses:molecule')
         ck.count(f'molecule:compile_query:closures={min(sum(len(v) for v in clo.values()), 4)}')
         for k in range(3):
             p = cut_pattern(rng, t, rng.randint(2, 9))
@@ -470,6 +478,9 @@ def corr_molecules(ck, cs):
         except Exception:  # noqa
             two = None
         if two is not None and len(two) <= 40:
+            cs.add(f'hyp_okb bond_eqb (m_atoms {coqmol.mol_term(two)}) (m_adj {coqmol.mol_term(two)}) {zll([sorted(c) for c in two.connected_components])}',
+                   ('hypotheses', 'molecule', str(two)))
+            ck.count('hypotheses:molecule')
             p1 = cut_pattern(rng, two, rng.randint(1, 4))
             p2 = cut_pattern(rng, two, rng.randint(1, 4))
             try:
@@ -567,6 +578,164 @@ def corr_automorphism(ck, cs):
         ck.count(f'automorphism:int-graph:{"err" if err else "some" if got else "none"}')
 
 
+# --------------------------------------------------------------------------------------------------
+# the stereo post-filter of QueryIsomorphism.get_mapping (coq/model/IsoStereo.v)
+
+STEREO_SMARTS = ['[C@](F)(Cl)(Br)I', '[C@@](F)(Cl)(Br)I', '[C@;h1](F)(Cl)Br', '[C@@;h1](F)(Cl)Br', '[C@](F)(Cl)Br', 'F[C@](Cl)Br', '[C@](F)Cl',
+                 '[C@]([#6])([#6])(F)Cl', '[C@@]([#6])([#6])(F)Cl', '[C@]([#6])([#6])[#8]', '[C@@;h1]([#6])([#6])[#8]', '[#6][C@;h1]([#8])[#6]',
+                 '[C@]1(F)(Cl)CC1', '[C@](F)(Cl)(Br)[H]', '[#6][C@@]([#6])([#7])[#6]', '[C@]([#6])([#8])([#6])[#6]',
+                 'F/C=C/F', 'F/C=C\\F', 'F/C=C/[#6]', '[#6]/C=C/[#6]', '[#6]/C=C\\[#6]', '[#6]/C=C/C=C/[#6]', '[#8]/C=C/[#6]', 'C/C=C(/F)Cl',
+                 '[#6]C=[C@]=CC', '[#6]C=[C@@]=C[#6]', '[#6]C([#6])=[C@]=C[#6]', 'C[C@;h1](O)/C=C/C', '[C@;h1](F)(Cl)/C=C/[#6]', '[C@;h1](F)(Cl)[C@;h1](F)Br']
+STEREO_TARGETS = ['F[C@](Cl)(Br)I', 'F[C@@](Cl)(Br)I', 'FC(Cl)(Br)I', 'F[C@H](Cl)Br', 'F[C@@H](Cl)Br', 'F[C@]([H])(Cl)Br', 'C[C@](CC)(F)Cl', 'C[C@@](CC)(F)Cl',
+                  'C[C@H](O)CC', 'C[C@@H](O)CC', 'CC(O)CC', 'F[C@]1(Cl)CC1C', 'F[C@]1(Cl)C[C@H]1C', 'C[C@](N)(CC)CCC', 'C[C@@](O)(CC)C(C)C',
+                  'F/C=C/F', 'F/C=C\\F', 'FC=CF', 'F/C=C/C', 'C/C=C/C', 'C/C=C\\C', 'C/C=C/C=C/C', 'C/C=C/C=C\\C', 'C/C=C(/F)Cl', 'C/C=C(\\F)Cl', 'O/C=C/C',
+                  'CC=[C@]=CC', 'CC=[C@@]=CC', 'CC=C=CC', 'CC(C)=[C@]=CC', 'F/C=C=C=C/F', 'C[C@H](O)/C=C/C', 'C[C@@H](O)/C=C\\C', 'F[C@H](Cl)/C=C/C',
+                  'F[C@H](Cl)[C@H](F)Br', 'F[C@H](Cl)[C@@H](F)Br', 'F[C@@H](Cl)[C@@H](F)Br', 'C[C@H]1CC[C@@H](C)CC1', 'N[C@@H](C)C(=O)O', 'C[C@H](N)C(O)=O']
+
+
+def env4_term(e):
+    return tup(zraw(e[0]), zraw(e[1]), opt(e[2], zraw), opt(e[3], zraw))
+
+
+def starget_term(t):
+    ct = {}
+    for (n, m), e in t.stereogenic_cis_trans.items():
+        ct.setdefault(n, {})[m] = e
+    return ('(mkSTarget ' + ' '.join([
+        lst([tup(zraw(n), opt(a.stereo, b)) for n, a in t._atoms.items()]),
+        lst([tup(zraw(n), lst([tup(zraw(m), opt(bd.stereo, b)) for m, bd in ms.items()])) for n, ms in t._bonds.items()]),
+        lst([n for n, a in t._atoms.items() if a.atomic_number == 1], zraw),
+        lst([tup(zraw(n), lst(list(o), zraw)) for n, o in t.stereogenic_tetrahedrons.items()]),
+        lst([tup(zraw(n), tup(zraw(x), zraw(y))) for n, (x, y) in t._stereo_allenes_terminals.items()]),
+        lst([tup(zraw(n), env4_term(e)) for n, e in t.stereogenic_allenes.items()]),
+        lst([tup(zraw(n), tup(zraw(x), zraw(y))) for n, (x, y) in t._stereo_cis_trans_terminals.items()]),
+        lst([tup(zraw(n), lst([tup(zraw(m), env4_term(e)) for m, e in ms.items()])) for n, ms in ct.items()]),
+        lst([tup(zraw(n), tup(zraw(x), zraw(y))) for n, (x, y) in t._stereo_cis_trans_centers.items()])]) + ')')
+
+
+def squery_term(q):
+    from chython.periodictable import ExtendedQuery
+    return ('(mkSQuery ' + ' '.join([
+        lst([tup(zraw(n), opt(a.stereo if isinstance(a, ExtendedQuery) else None, b)) for n, a in q.atoms()]),
+        lst([tup(zraw(n), lst(list(ms), zraw)) for n, ms in q._bonds.items()]),
+        lst([tup(zraw(n), zraw(m), opt(bd.stereo, b)) for n, m, bd in q.bonds()])]) + ')')
+
+
+def drain_partial(gen):
+    """what a generator yields until it stops or raises: (items, exception name or None)"""
+    out = []
+    try:
+        for x in gen:
+            out.append(x)
+    except Exception as e:  # noqa
+        return out, exn_name(e)
+    return out, None
+
+
+def stereo_pairs(ck):
+    from chython import smiles, smarts
+    rng = random.Random(f'{ck.seed}:stereo')
+    qs = []
+    for s_ in STEREO_SMARTS:
+        try:
+            qs.append((s_, smarts(s_)))
+        except Exception:  # noqa
+            ck.count('stereo:smarts-rejected')
+    ts = []
+    for x in STEREO_TARGETS:
+        try:
+            ts.append((x, smiles(x)))
+        except Exception:  # noqa
+            ck.count('stereo:target-rejected')
+    # corpus molecules that carry stereo labels
+    extra = 15 if ck.tier == 'quick' else 150
+    for smi in corpus.sample(corpus.stereo_smiles(), 4 * extra, ck.seed, 'c07-stereo'):
+        if extra <= 0:
+            break
+        try:
+            m = smiles(smi)
+        except Exception:  # noqa
+            continue
+        if m is not None and len(m) <= 28 and has_stereo(m):
+            ts.append((smi, m))
+            extra -= 1
+    return qs, ts, rng
+
+
+def mirror_smiles(smi):
+    """the enantiomer's text: every @ <-> @@"""
+    return smi.replace('@@', '\0').replace('@', '@@').replace('\0', '@')
+
+
+def fragment_queries(rng, t, n=2):
+    """query patterns cut around stereo centres / stereo bonds of a molecule: the fragment's SMILES re-read as SMARTS
+    ([C@H] spelled [C@;h1]); only fragments whose bracket atoms are plain C stereo centres"""
+    import re
+    from chython import smarts
+    out = []
+    centres = [k for k, a in t._atoms.items() if a.stereo is not None] + [k for k, m, bd in t.bonds() if bd.stereo is not None]
+    rng.shuffle(centres)
+    for c in centres[:4]:
+        atoms = {c} | set(t._bonds[c])
+        for x in list(atoms):
+            if rng.random() < .5:
+                atoms |= set(t._bonds[x])
+        try:
+            sub = t.substructure(atoms, recalculate_hydrogens=False)
+            txt_ = str(sub)
+        except Exception:  # noqa
+            continue
+        if not has_stereo(sub) or '.' in txt_:
+            continue
+        brackets = re.findall(r'\[[^\]]*\]', txt_)
+        if any(not re.fullmatch(r'\[C@@?H?\]', x) for x in brackets):
+            continue
+        sma = re.sub(r'\[C(@@?)H\]', r'[C\1;h1]', txt_)
+        try:
+            q = smarts(sma)
+        except Exception:  # noqa
+            continue
+        out.append((sma, q))
+        if len(out) >= n:
+            break
+    return out
+
+
+def corr_stereo(ck, cs):
+    """QueryIsomorphism.get_mapping(_cython=False) == model's stereo filter applied to what Isomorphism._get_mapping yields
+    (same filter value and scope), exceptions included"""
+    qs, ts, rng = stereo_pairs(ck)
+    from chython import smiles
+    work = []
+    for ttxt, t in ts:
+        picks = list(qs) if len(t) <= 9 else rng.sample(qs, 8)
+        if len(t) > 9:
+            fq = fragment_queries(rng, t)
+            picks += fq
+            try:
+                mt = smiles(mirror_smiles(ttxt))
+                work.append((mirror_smiles(ttxt), mt, fq))
+            except Exception:  # noqa
+                pass
+        work.append((ttxt, t, picks))
+    for ttxt, t, picks in work:
+        T = starget_term(t)
+        for s_, q in picks:
+            flt = rng.random() < .5
+            scope = None if rng.random() < .8 else [x for x in t._atoms if rng.random() < .7]
+            un, err0 = drain_partial(q._get_mapping(t, automorphism_filter=flt, searching_scope=scope))
+            if err0 is not None or len(un) > 150:
+                ck.count('stereo:skipped')
+                continue
+            if not un and rng.random() < .93:              # nothing for the filter to do: keep a few such cases only
+                continue
+            got, err = drain_partial(q.get_mapping(t, automorphism_filter=flt, searching_scope=scope, _cython=False))
+            cs.add(f'sres_eqb (qstereo_filter {T} {squery_term(q)} {maps_term(un)}) ({maps_term(got)}, {opt(err, str)})',
+                   ('QueryIsomorphism.get_mapping stereo filter', s_, ttxt, flt, scope))
+            ck.case(('stereo', s_, ttxt, flt, None if scope is None else tuple(scope)), nontrivial=bool(un))
+            ck.count(f'stereo:unfiltered={min(len(un), 3)}:kept={min(len(got), 3)}:{"err:" + err if err else "ok"}')
+
+
 def correspondence(ck):
     cs = Cases()
     corr_lazy_product(ck, cs)
@@ -575,7 +744,8 @@ def correspondence(ck):
     corr_molecules(ck, cs)
     corr_smarts(ck, cs)
     corr_automorphism(ck, cs)
-    ok, failing, log = coqcases.run_cases('c07', 'Iso Graph', cs.exprs, shard=250)
+    corr_stereo(ck, cs)
+    ok, failing, log = coqcases.run_cases('c07', 'Iso Graph IsoStereo', cs.exprs, shard=250, extra='From Proofs Require Import IsoProofs IsoExt.')
     good = ok and not failing
     ck.oblige('correspondence: lazy_product, _compile_query, _get_mapping, Isomorphism._get_mapping (sequence of mappings, order included), '
               'operators, _get_automorphism_mapping == Coq model', good, 'correspondence', log or str([cs.meta[i] for i in failing[:5]]))
@@ -999,9 +1169,10 @@ def search_int(ck, n):
         search_int_pair(ck, G, patt, targ, rng)
 
 
-def brute_automorphisms(classes, bonds):
-    """non-identity class- and bond-preserving bijections that map every component onto itself (what _get_automorphism_mapping enumerates)"""
-    comp = own_components(bonds)
+def brute_automorphisms(classes, bonds, keep_components=True):
+    """non-identity class- and bond-preserving bijections; keep_components: only those that map every component onto itself (what
+    _get_automorphism_mapping enumerates, C07_automorphism_mapping_exact); without it: ALL automorphisms"""
+    comp = own_components(bonds) if keep_components else dict.fromkeys(classes, 0)
     nodes = list(classes)
     out = []
     f = {}
@@ -1027,6 +1198,7 @@ def brute_automorphisms(classes, bonds):
 def search_automorphism(ck, mols):
     """mol.get_automorphism_mapping(): every yielded mapping is a non-identity automorphism (atoms, bonds, morgan classes);
     all of them are found, each once (nothing at all when every atom has a class of its own)"""
+    swaps = []
     for txt_, m in mols:
         if not len(m) or len(m) > 9:
             continue
@@ -1040,9 +1212,21 @@ def search_automorphism(ck, mols):
         ck.case(('search-auto', txt_), nontrivial=bool(want))
         ck.count(f'search:automorphism:{"some" if want else "none"}')
         if got == type(got).__name__ or sorted(got) != sorted(want):
-            ck.counterexample(f'automorphism:{txt_}', 'get_automorphism_mapping is not exactly the set of non-identity automorphisms',
-                              {'molecule': txt_}, got, sorted(want), 'brute-force enumeration of class-preserving bijections',
+            ck.counterexample(f'automorphism:{txt_}', 'get_automorphism_mapping is not exactly the set of non-identity automorphisms that keep '
+                              'every component in place', {'molecule': txt_}, got, sorted(want), 'brute-force enumeration of class-preserving bijections',
                               replay_py=f'from chython import smiles; print(list(smiles({txt_!r}).get_automorphism_mapping()))')
+        elif len(m) <= 7:
+            # "all possible automorphism mappings" (docstring): automorphisms that exchange identical components are never produced
+            # (C07_automorphism_mapping_all_refuted); one stable key, reported on the smallest input seen
+            want_all = [] if len(set(classes.values())) == len(classes) else brute_automorphisms(classes, bonds, keep_components=False)
+            if sorted(want_all) != sorted(want):
+                swaps.append((len(m), txt_, sorted(set(want_all) - set(want))))
+    if swaps:
+        n, txt_, missing = min(swaps)
+        ck.counterexample('automorphism-component-swap', 'get_automorphism_mapping / is_automorphic miss every automorphism that exchanges two identical '
+                          'components', {'molecule': txt_}, f'{len(missing)} automorphism(s) missing, e.g. {missing[0]}', 'all class-preserving automorphisms',
+                          'brute-force enumeration of ALL class- and bond-preserving bijections',
+                          replay_py=f'from chython import smiles; m = smiles({txt_!r}); print(list(m.get_automorphism_mapping()), m.is_automorphic())')
 
 
 def search_rdkit(ck, targets):
@@ -1102,6 +1286,92 @@ def search_rdkit(ck, targets):
                                   'orders, ring marks @ / !@), induced embeddings only', {'smarts': s, 'target': ttxt},
                                   sorted(got) if isinstance(got, list) else got, sorted(want), 'RDKit GetSubstructMatches(uniquify=False), re-filtered to induced matches',
                                   replay_py=f'from chython import smiles, smarts; print(list(smarts({s!r}).get_mapping(smiles({ttxt!r}), automorphism_filter=False, _cython=False)))')
+
+
+def rdkit_comparable(Chem, ttxt, t):
+    """the RDKit molecule of the same text when both toolkits number the atoms alike and agree on every bond order / aromatic flag,
+    all atoms neutral, no isotopes, radicals or explicit hydrogens; else None"""
+    rm = Chem.MolFromSmiles(ttxt) if ttxt else None
+    if rm is None or rm.GetNumAtoms() != len(t) or len(t) > 30 or list(t._atoms) != list(range(1, len(t) + 1)):
+        return None
+    for i, a in enumerate(rm.GetAtoms()):
+        ta = t._atoms[i + 1]
+        if (a.GetAtomicNum() != ta.atomic_number or a.GetFormalCharge() or ta.charge or a.GetIsotope() or ta.isotope
+                or a.GetNumRadicalElectrons() or ta.is_radical or a.GetAtomicNum() == 1):
+            return None
+    rb = {frozenset((x.GetBeginAtomIdx() + 1, x.GetEndAtomIdx() + 1)): (4 if x.GetIsAromatic() else int(x.GetBondTypeAsDouble())) for x in rm.GetBonds()}
+    cb = {frozenset((n, m)): _order(bd) for n, ms in t._bonds.items() for m, bd in ms.items()}
+    return rm if rb == cb else None
+
+
+def search_stereo(ck):
+    """stereo queries on the real code: (A) the automorphism filter must not lose image sets that the unfiltered search finds, and no
+    exception may escape; (B) against RDKit's useChirality matcher on the SMARTS both read alike"""
+    import re
+    from chython import smiles
+    qs, ts, rng = stereo_pairs(ck)
+    try:
+        from rdkit import Chem, RDLogger
+        RDLogger.DisableLog('rdApp.*')
+    except Exception:  # noqa
+        Chem = None
+    lost = []
+    raised = []
+    for ttxt, t in ts:
+        rm = rdkit_comparable(Chem, ttxt, t) if Chem is not None else None
+        for s_, q in (qs if len(t) <= 12 else rng.sample(qs, 6)):
+            if len(q._compiled_query[0]) != 1:
+                continue
+            full, e1 = drain_partial(q.get_mapping(t, automorphism_filter=False, _cython=False))
+            flt, e2 = drain_partial(q.get_mapping(t, automorphism_filter=True, _cython=False))
+            ck.case(('search-stereo', s_, ttxt), nontrivial=bool(full))
+            ck.count(f'search:stereo:{"raises" if e1 or e2 else "hit" if full else "miss"}')
+            if e1 or e2:
+                raised.append((len(t), len(q), s_, ttxt, e1 or e2))
+                continue
+            si, sf = {frozenset(m.values()) for m in full}, [frozenset(m.values()) for m in flt]
+            if len(sf) != len(set(sf)) or not set(sf) <= si:
+                ck.counterexample(f'stereo-filter:{s_}>{ttxt}', 'automorphism_filter=True yields a mapping / image set the unfiltered stereo search does not',
+                                  {'smarts': s_, 'target': ttxt}, sorted(map(sorted, sf)), sorted(map(sorted, si)), 'the same call with automorphism_filter=False',
+                                  replay_py=f'from chython import smiles, smarts; print(list(smarts({s_!r}).get_mapping(smiles({ttxt!r}), _cython=False)))')
+            elif set(sf) != si:
+                lost.append((len(t), len(q), s_, ttxt, sorted(map(sorted, si - set(sf)))))
+            # (B) RDKit, on the comparable subset only: every labelled query atom has its four neighbours spelled out (no implicit
+            # hydrogen, whose position in the neighbour order the two SMARTS dialects count differently; no allene centre, which RDKit
+            # does not know) and the query has no ring closure (chython's SMARTS reader orders ring-closure neighbours differently)
+            if rm is None or sum(len(v) for v in q._bonds.values()) // 2 >= len(q) or any(
+                    getattr(a, 'stereo', None) is not None and len(q._bonds[n]) != 4 for n, a in q._atoms.items()):
+                continue
+            rs = re.sub(r'\[C(@@?);h1\]', r'[C\1H]', s_)
+            rq = Chem.MolFromSmarts(rs)
+            if rq is None or rq.GetNumAtoms() != len(q):
+                continue
+            order = sorted(q._atoms)
+            nonbonded = [(i, j) for i in range(len(order)) for j in range(i + 1, len(order)) if order[j] not in q._bonds[order[i]]]
+            want = set()
+            for match in rm.GetSubstructMatches(rq, uniquify=False, useChirality=True, maxMatches=100000):
+                im = [i + 1 for i in match]
+                if all(im[j] not in t._bonds[im[i]] for i, j in nonbonded):
+                    want.add(tuple(im))
+            got = {tuple(m[n] for n in order) for m in full}
+            ck.count(f'search:stereo:rdkit:{"hit" if want else "miss"}')
+            if got != want:
+                ck.counterexample(f'stereo-rdkit:{s_}>{ttxt}', 'stereo query match differs from RDKit GetSubstructMatches(useChirality=True)',
+                                  {'smarts': s_, 'rdkit_smarts': rs, 'target': ttxt}, sorted(got), sorted(want), 'RDKit useChirality, re-filtered to induced matches',
+                                  replay_py=f'from chython import smiles, smarts; print(list(smarts({s_!r}).get_mapping(smiles({ttxt!r}), automorphism_filter=False, _cython=False)))')
+    if lost:
+        _, _, s_, ttxt, missing = min(lost)
+        ck.counterexample('stereo-after-automorphism-filter', 'with automorphism_filter=True (the default) a stereo query loses embeddings: the image-set filter runs '
+                          'inside Isomorphism._get_mapping BEFORE the stereo check, so a mapping that fails the stereo check hides the valid one onto the same atoms',
+                          {'smarts': s_, 'target': ttxt}, f'image sets lost: {missing}', 'every image set of the unfiltered search appears once',
+                          'the same call with automorphism_filter=False',
+                          replay_py=f'from chython import smiles, smarts; q = smarts({s_!r}); t = smiles({ttxt!r}); '
+                                    'print(list(q.get_mapping(t, _cython=False)), list(q.get_mapping(t, automorphism_filter=False, _cython=False)))')
+    if raised:
+        _, _, s_, ttxt, e = min(raised)
+        ck.counterexample('stereo-query-raises', f'get_mapping raises {e} in the stereo check instead of deciding the mapping',
+                          {'smarts': s_, 'target': ttxt}, e, 'a list of mappings', 'no exception may escape the search',
+                          replay_py=f'from chython import smiles, smarts; print(list(smarts({s_!r}).get_mapping(smiles({ttxt!r}), _cython=False)))')
 
 
 RDKIT_TARGETS = ['CC1CC1', 'C1CCCCC1', 'CCCC', 'c1ccccc1-c1ccccc1', 'O=C1CCC(OC)O1', 'NCCC1CCNC1', 'CCC1CCCC1', 'C=C1CCC=C1', 'CC(=O)OC1CC1', 'c1ccncc1C',
@@ -1277,7 +1547,8 @@ def search(ck):
                 npairs += 1
     search_int(ck, 250 if ck.tier == 'quick' else 4000)
     search_lazy_product(ck, 200 if ck.tier == 'quick' else 3000)
-    search_automorphism(ck, targets)
+    search_automorphism(ck, [('C.C', smiles('C.C'))] + targets)
+    search_stereo(ck)
     search_rdkit(ck, [(x, smiles(x)) for x in RDKIT_TARGETS] + [(x, m) for x, m in targets if '.' not in x])
     ck.extra['search_pairs'] = npairs
 
